@@ -599,7 +599,8 @@ func (s *Scheme) prepareSigning(membership *membership, parties []PartyID, topic
 	}, func(m interface{}, from uint16) {
 		msg := m.(*rbcMsg)
 		s.Logger.Debugf("Got round %d message from %d", msg.round, from)
-		signingProtocol.OnMsg(msg.payload, from, msg.broadcast)
+		sourceParty := uint16(membership.partyIDByUniversalID(UniversalID(from)))
+		signingProtocol.OnMsg(msg.payload, sourceParty, msg.broadcast)
 	}, len(signers))
 
 	rbc = &rbcFilter{
